@@ -266,7 +266,7 @@ def mapInput? (k : String) (r : Row) : Option MapInput :=
   if r.value.isNone ∧ r.xattrs = [] then none
   else
     let doc : Option VJ := match r.value with
-      | some v => if r.isJSON then VJ.parse v else some (.obj .nil)
+      | some v => if r.isJSON ∧ v ≠ "" then VJ.parse v else some (.obj .nil)   -- (an empty body reaches the function as `{}` whatever its flag)
       | none => some (.obj .nil)
     doc.map (fun d => { id := k, doc := d, xattrs := r.xattrs.map (fun p => (p.1, (VJ.parse p.2).getD .null)) })
 
